@@ -16,7 +16,7 @@ from .langs import LANGS, lexer_for
 
 MARKER_VARIANTS = {
     "#": ["# nocl", "#nocl", "#  NOCL", "# NoCl: generated code", "# nocl because reasons", "#      nocl", "#\tnocl", "#        NOCL see above"],
-    "//": ["// nocl", "//nocl", "/* nocl */", "// NOCL", "/* NoCl generated */", "//  nocl: legacy", "//      nocl", "/*       nocl */", "//\t\tnocl", "/*nocl*/"],
+    "//": ["// nocl", "//nocl", "/* nocl */", "// NOCL", "/* NoCl generated */", "//  nocl: legacy", "//      nocl", "/*       nocl */", "//\t\tnocl", "/*nocl*/", "/* nocl */ // generated code", "/*NOCL*/ /* second comment */", "/* first comment */ // nocl"],
 }
 DECOY_VARIANTS = {
     # the marker must follow the comment LEADER (#, //, /*) directly: a second leader character in between makes
